@@ -298,6 +298,49 @@ def trace_models(chk, pid, binary, sc, gen, d11, natural, maxperm):
     return list(models.values()), res.distinct, res.generated, validated, len(traces)
 
 
+API_CFG = """SPECIFICATION SimSpec
+CONSTANTS MaxSteps = 20
+CHECK_DEADLOCK FALSE
+INVARIANTS CondListsAreOrderedSets EdgesBetweenNodes WildcardSeed
+PROPERTIES UpsertKeepsEdgesDistinct
+"""
+
+
+def api_automaton(chk, binary, sc, tier):
+    """Spec -> code: behaviours of the construction API automaton (spec/WGraphApi.tla, TLC -simulate) are stepped through the
+    real graph object; return value and projected state are compared after every call. The automaton is the layer the
+    builder of C10 is written in; a divergence is DRIFT of that layer (reported, not a verdict on a model)."""
+    res = run_tlc("WGraphApi", API_CFG, sc, simulate=60 if tier == "quick" else 1500, depth=24, seed=SEED, workers=8, timeout=1500)
+    if res.violated:
+        raise Infra("design-level property %s of spec/WGraphApi.tla violated\n%s" % (res.violated, res.tail[-1200:]))
+    beh = [r for r in res.records if r.get("rec") == "behaviour"]
+    if not beh:
+        raise Infra("TLC generated no behaviour of WGraphApi\n" + res.tail[-800:])
+    inp, out = sc.path("api.in.ndjson"), sc.path("api.out.ndjson")
+    write_ndjson(inp, [{"id": "b%d" % i, "steps": [{"op": s["op"], "args": s["args"]} for s in b["steps"]]} for i, b in enumerate(beh)])
+    run_harness(binary, ["wgapi-replay", "-in", inp, "-out", out])
+    steps = off = 0
+    for b, o in zip(beh, read_ndjson(out)):
+        for k, (s, r) in enumerate(zip(b["steps"], o["steps"])):
+            steps += 1
+            want_nodes = sorted((n[0], n[1], tuple(n[2])) for n in s["post"]["nodes"])
+            got_nodes = sorted((n[0], n[1], tuple(n[2])) for n in r["nodes"])
+            want_edges = sorted((e[0], e[1], e[2], e[3], e[4], tuple(e[5])) for e in s["post"]["edges"])
+            got_edges = sorted((e[0], e[1], e[2], e[3], e[4], tuple(e[5])) for e in r["edges"])
+            # the concrete state must be well formed beyond the projection: labels agree, edges know their source, nothing weighted yet
+            wellformed = all(n[0] == n[3] == n[4] for n in r["nodes"]) and all(e[6] == e[0] and e[7] == 0 and e[8] == 0 for e in r["edges"])
+            if s["ret"] != r["ret"] or want_nodes != got_nodes or want_edges != got_edges or not wellformed:
+                off += 1
+                chk.drift.append({"api_automaton": "step %d of behaviour %s: %s%s" % (k + 1, o["id"], s["op"], s["args"]), "spec": {"ret": s["ret"], "edges": want_edges[:6]},
+                                  "real": {"ret": r["ret"], "edges": got_edges[:6]}, "calls": [[x["op"]] + x["args"] for x in b["steps"][:k + 1]]})
+                break
+    log("construction API automaton: %d behaviours / %d calls generated by TLC (-simulate) and stepped through the real graph object, state compared after every call (%d behaviours off)"
+        % (len(beh), steps, off))
+    chk.add("api_behaviours_replayed", len(beh))
+    chk.add("api_calls_compared", steps)
+    return res
+
+
 def replay(pid, path):
     """bin/check <ID> --replay <file>: re-executes exactly the recorded case against the current tree and re-classifies it."""
     r = json.load(open(path))
@@ -365,6 +408,10 @@ def run(pid, tier):
             allmodels += list(models.values())
             log("universe NFree=%d: %d models, %d distinct states, %d impl outcomes, TLC %.0fs%s" % (
                 nfree, len(models), res.distinct, sum(len(m.impl) for m in models.values()), res.wall, " (cached)" if res.cached else ""))
+
+        # ---- the construction API underneath the builder (C10): spec behaviours replayed on the real object
+        if pid == "C10":
+            api_automaton(chk, binary, sc, tier)
 
         # ---- TV: random larger models, natural orders logged, replayed through the Impl layer by TLC
         n = 150 if tier == "quick" else 1500
